@@ -30,8 +30,8 @@ func main() {
 			"C03": {Run: runC03, Modes: []string{"any", "any", "images"}},
 			"C05": {Run: runC05, Modes: []string{"multi_split", "every_split", "multi_split", "dst_minimum", "multi_split", "images"}},
 			"C07": {Run: runC07, Modes: []string{"valid", "valid", "hashers", "images"}},
-			"C08": {Run: runC08, Modes: []string{"histories"}},
-			"C09": {Run: runC09, Modes: []string{"variants"}},
+			"C08": {Run: runC08, Modes: []string{"histories", "histories", "image_histories"}},
+			"C09": {Run: runC09, Modes: []string{"variants", "variants", "image_variants"}},
 		},
 	})
 }
